@@ -7,6 +7,8 @@ CONSTANTS
   FrameChunks = 0
   MaxMig = 0
   Serial = FALSE
+  Requesters = {1, 2, 3}
+  AcceptGuard = "handling"
 INVARIANTS TContentsCopied TNothingElseChanged CompleteOnce OneAtATime RoutedBack
 CONSTRAINT Mark
 POSTCONDITION Accepted
